@@ -95,7 +95,10 @@ func (m *TlvModel) GenEncodeInto(buf *bytes.Buffer) error {
 
 			{{if .NoCopy}}
 				wireIdx := 0
-				buf := wire[wireIdx]
+				var buf []byte
+				if wireIdx < len(wire) {
+					buf = wire[wireIdx]
+				}
 			{{end}}
 
 			pos := uint(0)
